@@ -39,7 +39,8 @@ Qed.
    AvroWriter.close installs it when nothing was written and then flushes   /   rotate_existing_file looks for a
    free name *)
 Definition shapes_ok (sh : shapes) : bool :=
-  mcalls_eqb (sh_exit sh) [MFlush; MClose] && mcalls_eqb (sh_del sh) [MClose] && sh_avro_close_flushes sh
+  mcalls_eqb (sh_exit sh) [MFlush; MClose] && mcalls_eqb (sh_exit_exc sh) [MFlush; MClose]
+  && mcalls_eqb (sh_del sh) [MClose] && sh_avro_close_flushes sh
   && negb (sh_avro_flush_placeholder sh) && sh_avro_close_placeholder sh && sh_rotate_counter sh.
 (* SplitWriter.write: `written >= count` -> flush, close, written = 0, new writer *)
 Definition stdout_vals_ok (vals : option (list string)) (allowed : list string) : bool :=
@@ -54,14 +55,17 @@ Definition split_shapes_ok (sh : shapes) : bool :=
 
 Lemma shapes_ok_all sh : shapes_ok sh = true ->
   (sh_exit sh = [MFlush; MClose] /\ sh_del sh = [MClose] /\ sh_avro_close_flushes sh = true) /\
-  (sh_avro_flush_placeholder sh = false /\ sh_avro_close_placeholder sh = true /\ sh_rotate_counter sh = true).
+  (sh_avro_flush_placeholder sh = false /\ sh_avro_close_placeholder sh = true /\ sh_rotate_counter sh = true) /\
+  sh_exit_exc sh = [MFlush; MClose].
 Proof.
   unfold shapes_ok. intros H.
   apply andb_prop in H. destruct H as [H H6]. apply andb_prop in H. destruct H as [H H5].
   apply andb_prop in H. destruct H as [H H4]. apply andb_prop in H. destruct H as [H H3].
-  apply andb_prop in H. destruct H as [H1 H2]. apply negb_true_iff in H4.
+  apply andb_prop in H. destruct H as [H H2]. apply andb_prop in H. destruct H as [H1 H7]. apply negb_true_iff in H4.
   repeat split; auto using mcalls_eqb_eq.
 Qed.
+Lemma shapes_ok_exc sh : shapes_ok sh = true -> sh_exit_exc sh = [MFlush; MClose].
+Proof. intros H. apply shapes_ok_all in H. tauto. Qed.
 Lemma shapes_ok_inv sh : shapes_ok sh = true ->
   sh_exit sh = [MFlush; MClose] /\ sh_del sh = [MClose] /\ sh_avro_close_flushes sh = true.
 Proof. intros H. apply shapes_ok_all in H. tauto. Qed.
@@ -100,7 +104,9 @@ Qed.
 (* ------------------------------------------------------------------------------------------------ *)
 (* classes of histories                                                                               *)
 
-Definition is_closing (o : op) : bool := match o with Close | WithExit | Del => true | _ => false end.
+Definition is_closing (o : op) : bool := match o with Close | WithExit | WithExitExc | Del => true | _ => false end.
+(* leaving a with-block, normally or by an exception *)
+Definition is_exit (o : op) : bool := match o with WithExit | WithExitExc => true | _ => false end.
 Definition has_close (h : list op) : bool := existsb is_closing h.
 
 (* finding C17-stream-empty-close: the very first operation is a bare close()/del *)
@@ -229,6 +235,7 @@ Proof.
   - destruct (closed_flush k st H) as [o Ho]. rewrite Ho. eexists; split; eauto. intros; discriminate.
   - rewrite (closed_close k st H). eexists; split; eauto. intros; discriminate.
   - destruct (closed_calls k st (sh_exit sh) H) as [o Ho]. rewrite Ho. eexists; split; eauto. intros; discriminate.
+  - destruct (closed_calls k st (sh_exit_exc sh) H) as [o Ho]. rewrite Ho. eexists; split; eauto. intros; discriminate.
   - destruct (closed_calls k st (sh_del sh) H) as [o Ho]. rewrite Ho. eexists; split; eauto. intros; discriminate.
 Qed.
 Lemma closed_run k st h : w_open st = false -> run k st h = (st, []).
@@ -253,10 +260,13 @@ Qed.
 
 Lemma closing_step_closes k st o : is_closing o = true -> w_open (fst (step k st o)) = false.
 Proof.
-  destruct (shapes_ok_inv sh SH) as (He & Hd & _).
+  destruct (shapes_ok_inv sh SH) as (He & Hd & _). pose proof (shapes_ok_exc sh SH) as Hx.
   destruct o; cbn; try discriminate; intros _.
   - apply do_close_closed.
   - rewrite He. cbn. destruct (do_flush k st) as [st1 o1] eqn:E1. destruct o1.
+    + pose proof (do_close_closed k st1) as [Hc Ho]. destruct (do_close k st1) as [st2 o2]. cbn in *. subst o2. exact Hc.
+    + cbn. eapply do_flush_raised; eauto.
+  - rewrite Hx. cbn. destruct (do_flush k st) as [st1 o1] eqn:E1. destruct o1.
     + pose proof (do_close_closed k st1) as [Hc Ho]. destruct (do_close k st1) as [st2 o2]. cbn in *. subst o2. exact Hc.
     + cbn. eapply do_flush_raised; eauto.
   - rewrite Hd. cbn. pose proof (do_close_closed k st) as [Hc Ho]. destruct (do_close k st) as [st2 o2]. cbn in *.
@@ -336,6 +346,7 @@ Proof.
   - cbn [newly]. rewrite app_nil_r. apply stream_close_good. exact G.
   - cbn [newly]. rewrite app_nil_r. apply stream_calls_good. exact G.
   - cbn [newly]. rewrite app_nil_r. apply stream_calls_good. exact G.
+  - cbn [newly]. rewrite app_nil_r. apply stream_calls_good. exact G.
 Qed.
 
 Lemma stream_run_good h : forall st acc, stream_good st acc ->
@@ -359,6 +370,8 @@ Proof.
     cbn. rewrite N.eqb_refl. reflexivity.
   - cbn. split; [reflexivity|]. exists []. split; reflexivity.
   - cbn [Writers.step]. rewrite He. cbn. destruct (sh_stream_close_flushes sh); cbn;
+      (split; [reflexivity|]; exists []; split; reflexivity).
+  - cbn [Writers.step]. rewrite (shapes_ok_exc sh SH). cbn. destruct (sh_stream_close_flushes sh); cbn;
       (split; [reflexivity|]; exists []; split; reflexivity).
 Qed.
 
@@ -402,6 +415,7 @@ Proof.
   - unfold do_write. destruct (w_open st); cbn; [rewrite G; reflexivity | rewrite app_nil_r; exact G].
   - cbn. rewrite app_nil_r. exact G.
   - unfold Writers.do_close. destruct (w_open st); cbn; rewrite app_nil_r; exact G.
+  - cbn [newly]. rewrite app_nil_r. apply plain_calls_good. exact G.
   - cbn [newly]. rewrite app_nil_r. apply plain_calls_good. exact G.
   - cbn [newly]. rewrite app_nil_r. apply plain_calls_good. exact G.
 Qed.
@@ -491,6 +505,7 @@ Proof.
     + rewrite (closed_write ASqlite st r Ho). cbn. rewrite app_nil_r. exact G.
   - cbn [newly]. rewrite app_nil_r. apply sq_flush_good. exact G.
   - cbn [newly]. rewrite app_nil_r. apply sq_close_good. exact G.
+  - cbn [newly]. rewrite app_nil_r. apply sq_calls_good. exact G.
   - cbn [newly]. rewrite app_nil_r. apply sq_calls_good. exact G.
   - cbn [newly]. rewrite app_nil_r. apply sq_calls_good. exact G.
 Qed.
@@ -591,6 +606,7 @@ Proof.
     + rewrite (closed_write AAvro st r Ho). cbn. rewrite app_nil_r. right. right. auto.
   - cbn [newly]. rewrite app_nil_r. apply av_flush_good. exact G.
   - cbn [newly]. rewrite app_nil_r. apply av_close_good. exact G.
+  - cbn [newly]. rewrite app_nil_r. apply av_calls_good. exact G.
   - cbn [newly]. rewrite app_nil_r. apply av_calls_good. exact G.
   - cbn [newly]. rewrite app_nil_r. apply av_calls_good. exact G.
 Qed.
@@ -762,7 +778,7 @@ Notation do_flush := (Writers.do_flush sh).
 
 (* how the inner writer of the LAST part is closed, for each way of closing the split writer *)
 Definition inner_close (c : op) : list op :=
-  match c with WithExit => [Flush; Close] | _ => [Close] end.
+  if is_exit c then [Flush; Close] else [Close].
 
 (* the file a fresh inner writer leaves after the records cs and the operations fin *)
 Definition file_after (cs : list rec) (fin : list op) : file :=
@@ -873,10 +889,16 @@ Proof.
   { intros w. unfold split_close. cbn [s_cur s_written s_fc s_done].
     pose proof (do_close_closed sh k w) as [_ O3]. destruct (do_close sh k w) as [w3 o3]. cbn [fst snd] in *. subst o3.
     rewrite Hd, fs_put_indexed by (rewrite map_length; reflexivity). reflexivity. }
-  destruct c; try discriminate Hcl; cbn [split_step inner_close].
+  pose proof (shapes_ok_exc sh SH) as Hx.
+  destruct c; try discriminate Hcl; unfold inner_close; cbn [split_step is_exit].
   - rewrite Hclose. eexists. split; [reflexivity|]. cbn [s_cur s_done]. split; [reflexivity|].
     rewrite file_after_run. cbn [Writers.run Writers.step]. destruct (do_close sh k (wafter cur)); reflexivity.
   - rewrite He. cbn [split_calls]. unfold split_flush. cbn [s_cur s_written s_fc s_done].
+    destruct (open_flush_ok (wafter cur) (wafter_open _)) as [O2 Ho2].
+    destruct (do_flush k (wafter cur)) as [w2 o2] eqn:E2. cbn [fst snd] in *. subst o2.
+    rewrite Hclose. eexists. split; [reflexivity|]. cbn [s_cur s_done]. split; [reflexivity|].
+    rewrite file_after_run. cbn [Writers.run Writers.step]. rewrite E2. destruct (do_close sh k w2); reflexivity.
+  - rewrite Hx. cbn [split_calls]. unfold split_flush. cbn [s_cur s_written s_fc s_done].
     destruct (open_flush_ok (wafter cur) (wafter_open _)) as [O2 Ho2].
     destruct (do_flush k (wafter cur)) as [w2 o2] eqn:E2. cbn [fst snd] in *. subst o2.
     rewrite Hclose. eexists. split; [reflexivity|]. cbn [s_cur s_done]. split; [reflexivity|].
@@ -1021,7 +1043,7 @@ Definition split_result (rs : list rec) (c : op) : sstate * list rec :=
   split_run sh batch k limit false (split_init k) (map Write rs ++ [c]).
 Definition split_parts (rs : list rec) : list (list rec) := chunks limit [] rs.
 Definition last_part_ok (rs : list rec) (c : op) : Prop :=
-  c = WithExit \/ k <> AStream \/ List.length rs mod limit <> 0.
+  is_exit c = true \/ k <> AStream \/ List.length rs mod limit <> 0.
 
 Theorem split_files_spec rs c : is_closing c = true ->
   snd (split_result rs c) = rs /\
@@ -1052,8 +1074,8 @@ Proof.
 Qed.
 
 Lemma inner_close_cases c : is_closing c = true ->
-  (c = WithExit /\ inner_close c = [Flush; Close]) \/ (c <> WithExit /\ inner_close c = [Close]).
-Proof. destruct c; try discriminate; intros _; [right|left|right]; split; auto; discriminate. Qed.
+  (is_exit c = true /\ inner_close c = [Flush; Close]) \/ (is_exit c = false /\ inner_close c = [Close]).
+Proof. unfold inner_close. destruct c; try discriminate; intros _; cbn; auto. Qed.
 
 (* every part is readable on its own and holds its chunk *)
 Theorem split_parts_readable rs c : is_closing c = true -> last_part_ok rs c ->
@@ -1067,13 +1089,13 @@ Proof.
   apply Forall2_app.
   - apply Forall2_map_self. intros x. apply file_after_readable. left. reflexivity.
   - constructor; [|constructor]. apply file_after_readable.
-    destruct (inner_close_cases c Hc) as [[-> ->] | [Hne' ->]]; [left; reflexivity|]. right. split; [reflexivity|].
+    destruct (inner_close_cases c Hc) as [[_ ->] | [Hne' ->]]; [left; reflexivity|]. right. split; [reflexivity|].
     destruct Hok as [Hw | [Hk | Hm]]; [congruence | left; exact Hk | right]. intros E. apply Hm. apply Hlast. exact E.
 Qed.
 
 (* stream parts: the raw concatenation of the part files, in order, is a record stream holding rs *)
 Theorem split_raw_concat rs c : k = AStream -> is_closing c = true ->
-  c = WithExit \/ List.length rs mod limit <> 0 ->
+  is_exit c = true \/ List.length rs mod limit <> 0 ->
   read_stream (raw_concat (map snd (split_files (fst (split_result rs c))))) = Some rs.
 Proof.
   intros Hk Hc Hok. destruct (split_files_spec rs c Hc) as [_ Hf]. rewrite Hf, indexed_snd.
@@ -1085,7 +1107,7 @@ Proof.
   - apply Forall2_app.
     + apply Forall2_map_self. intros x. apply file_after_stream_file; [exact Hk | left; reflexivity].
     + constructor; [|constructor]. apply file_after_stream_file; [exact Hk|].
-      destruct (inner_close_cases c Hc) as [[-> ->] | [Hne' ->]]; [left; reflexivity|]. right. split; [reflexivity|].
+      destruct (inner_close_cases c Hc) as [[_ ->] | [Hne' ->]]; [left; reflexivity|]. right. split; [reflexivity|].
       destruct Hok as [Hw | Hm]; [congruence|]. intros E. apply Hm. apply Hlast. exact E.
   - intros E. apply app_eq_nil in E. destruct E as [_ E]. discriminate.
 Qed.
@@ -1611,13 +1633,13 @@ Proof.
 Qed.
 
 Lemma empty_output_valid sh batch k c : shapes_ok sh = true -> is_closing c = true ->
-  (k = AStream -> c = WithExit) ->
+  (k = AStream -> is_exit c = true) ->
   readable (w_file (fst (run sh batch k (w_init k) [c]))) = Some [].
 Proof.
   intros SH Hc Hk.
   assert (Hh : has_close [c] = true) by (cbn; rewrite Hc; reflexivity).
   assert (He : excluded k [c] = false).
-  { destruct k; cbn; try reflexivity. rewrite (Hk eq_refl). reflexivity. }
+  { destruct k; cbn; try reflexivity. specialize (Hk eq_refl). destruct c; try discriminate Hk; reflexivity. }
   destruct (closed_means_durable sh batch SH k [c] Hh He) as [_ R]. rewrite R.
   rewrite run_cons. destruct (step sh batch k (w_init k) c) as [st' out]. cbn.
   destruct c; try discriminate Hc; cbn; destruct k; reflexivity.
@@ -1681,11 +1703,12 @@ Qed.
 (* the generated facts with one repair undone (for the witnesses of what each repair prevents) *)
 Definition with_avro_unfixed (sh : shapes) : shapes :=
   mkShapes (sh_exit sh) (sh_del sh) true false (sh_avro_close_flushes sh) (sh_stream_close_flushes sh)
-           (sh_split_ge sh) (sh_split_roll sh) (sh_rotate_counter sh) (sh_split_stdout_netloc sh) (sh_split_stdout_path sh).
+           (sh_split_ge sh) (sh_split_roll sh) (sh_rotate_counter sh) (sh_split_stdout_netloc sh) (sh_split_stdout_path sh)
+           (sh_exit_exc sh).
 Definition with_rotation_unfixed (sh : shapes) : shapes :=
   mkShapes (sh_exit sh) (sh_del sh) (sh_avro_flush_placeholder sh) (sh_avro_close_placeholder sh)
            (sh_avro_close_flushes sh) (sh_stream_close_flushes sh) (sh_split_ge sh) (sh_split_roll sh) false
-           (sh_split_stdout_netloc sh) (sh_split_stdout_path sh).
+           (sh_split_stdout_netloc sh) (sh_split_stdout_path sh) (sh_exit_exc sh).
 
 (* the split theorem for a target given as urlparse(self.path) = (netloc, path): a file target is not taken for stdout *)
 Definition split_concl (sh : shapes) (batch : nat) (k : adapter) (limit : nat) (stdout : bool) (rs : list rec) (c : op) : Prop :=
@@ -1710,3 +1733,12 @@ Proof.
   intros SH SSH ACC LIM Hft Hc Hok. rewrite (file_target_not_stdout sh netloc path SSH Hft).
   exact (split_theorem sh batch k limit rs c SH SSH ACC LIM Hc Hok).
 Qed.
+
+Lemma closing_of_exit c : is_exit c = true -> is_closing c = true.
+Proof. destruct c; try discriminate; reflexivity. Qed.
+
+(* the generated facts with an __exit__ that only closes when the block is left by an exception *)
+Definition with_exit_exc_close_only (sh : shapes) : shapes :=
+  mkShapes (sh_exit sh) (sh_del sh) (sh_avro_flush_placeholder sh) (sh_avro_close_placeholder sh)
+           (sh_avro_close_flushes sh) (sh_stream_close_flushes sh) (sh_split_ge sh) (sh_split_roll sh) (sh_rotate_counter sh)
+           (sh_split_stdout_netloc sh) (sh_split_stdout_path sh) [MClose].
